@@ -1,8 +1,10 @@
 """Registry of translators: name -> function(repo) that (re)writes one file under coq/gen/."""
 import gen_elements
 import gen_runtime
+import gen_stereo
 
 TRANSLATORS = {
     'elements': lambda repo: gen_elements.main(repo),
     'runtime': lambda repo: gen_runtime.main(repo),
+    'stereo': lambda repo: gen_stereo.main(repo),
 }
